@@ -20,6 +20,8 @@ struct Opts {
 	country: Option<String>,
 	org: Option<String>,
 	dir_exists: bool,
+	/// an earlier run into the same directory (its key algorithm flag), before the run judged
+	prior: Option<&'static str>,
 }
 
 fn alg_flag(a: &str) -> Option<&'static str> {
@@ -118,6 +120,18 @@ fn run_case(s: &mut Suite, cli: &str, aws: bool, n: usize, o: &Opts) {
 	if let Some(x) = &o.org {
 		args.push(format!("--organization-name={}", x));
 	}
+	if let Some(prior_alg) = o.prior {
+		// an earlier, successful run into the same directory with another key algorithm: the run
+		// judged below has to leave exactly its own four files, whatever was there
+		let mut pa: Vec<String> = vec!["-o".into(), out_dir.clone()];
+		if let Some(f) = alg_flag(prior_alg) {
+			pa.push(f.into());
+		}
+		pa.push(format!("--cert-file-name={}", o.cert));
+		pa.push(format!("--ca-file-name={}", o.ca));
+		pa.push("--san=a-much-longer-name-for-the-earlier-run.example.com".into());
+		let _ = Command::new(cli).args(&pa).env("RUST_BACKTRACE", "0").output();
+	}
 	let output = Command::new(cli).args(&args).env("RUST_BACKTRACE", "0").output().expect("cannot run the CLI binary");
 	let stderr = String::from_utf8_lossy(&output.stderr).to_string();
 	let ok = output.status.success();
@@ -211,6 +225,14 @@ fn run_case(s: &mut Suite, cli: &str, aws: bool, n: usize, o: &Opts) {
 		return; // same base names: the property only speaks about distinct ones
 	}
 	let read = |n: &str| std::fs::read_to_string(format!("{}/{}", out_dir, n)).unwrap_or_default();
+	// each file is one PEM text and nothing else (strict RFC 7468 decoder of the Lean specification)
+	for f in &want {
+		let text = read(f);
+		let resp = s.drv.ask(&format!("spec-pem {}", hex(text.as_bytes())));
+		if !resp.starts_with("(ok ") {
+			s.rep.violate("C18:file-is-one-pem-text", "a written file is not exactly one PEM text", format!("{}\nfile {} ({} bytes): strict decoder says {}\n{}", replay, f, text.len(), resp, if f.ends_with(".key.pem") { "(key file content withheld)".to_string() } else { text.clone() }));
+		}
+	}
 	let der_of = |text: &str| pem::parse(text).ok().map(|p| p.contents().to_vec());
 	let (Some(ee_der), Some(ca_der)) = (der_of(&read(&format!("{}.pem", o.cert))), der_of(&read(&format!("{}.pem", o.ca)))) else {
 		s.rep.violate("C18:pem-files", "a certificate file is not a PEM certificate", replay.clone());
@@ -278,6 +300,9 @@ pub fn run(ctx: &mut Ctx) -> Report {
 	let rule = "option sets for the real binary: each key algorithm of the build (and those it lacks), 0..6 names mixing DNS / IPv4 / IPv6 and look-alikes, arbitrary common / country / organisation strings incl. non-printable and non-ASCII, both purpose flags, base names, existing and non-existing output directories; plus the name classifier alone over a larger set of literals through CertificateParams::new; non-trivial = one option set";
 	let mut s = Suite::new(ctx, "C18", rule);
 	let aws = cfg!(feature = "aws");
+	if std::env::var("VERIF_FEATURE").map(|f| f == "both").unwrap_or(false) {
+		s.rep.notes.push("CLI built with both back-end features (default ring plus aws_lc_rs): aws-lc-rs is the back end in use".into());
+	}
 	let cli = std::env::var("VERIF_CLI").unwrap_or_else(|_| format!("/verif/.cache/target-cli-{}/debug/rustls-cert-gen", if aws { "aws" } else { "ring" }));
 	// --- the classifier alone (in-process, same function as the CLI's parse_sans)
 	let literals = [
@@ -301,7 +326,7 @@ pub fn run(ctx: &mut Ctx) -> Report {
 		return s.rep;
 	}
 	// --- the binary
-	let base = Opts { alg: "default", client: false, server: false, cert: "cert".into(), ca: "root-ca".into(), san: vec![], cn: None, country: None, org: None, dir_exists: true };
+	let base = Opts { alg: "default", client: false, server: false, cert: "cert".into(), ca: "root-ca".into(), san: vec![], cn: None, country: None, org: None, dir_exists: true, prior: None };
 	let mut cases: Vec<Opts> = vec![base.clone()];
 	for a in ["rsa", "ed25519", "p256", "p384", "p521"] {
 		// flags the build does not know are bpaf errors; still no files may be written
@@ -329,6 +354,11 @@ pub fn run(ctx: &mut Ctx) -> Report {
 	cases.push(Opts { cert: "x.KEY".into(), ca: "x".into(), ..base.clone() });
 	cases.push(Opts { cert: ".key".into(), ca: "k".into(), ..base.clone() });
 	cases.push(Opts { cert: "a.b c".into(), ca: "ü".into(), ..base.clone() });
+	// a second run into a directory that already holds the files of an earlier one (other key
+	// algorithm, so other file lengths)
+	for (prior, now) in [("p384", "p256"), ("p384", "ed25519"), ("p256", "p384"), ("ed25519", "p384"), ("p521", "p256"), ("rsa", "ed25519"), ("p256", "p256")] {
+		cases.push(Opts { alg: now, prior: Some(prior), server: true, san: vec!["x.example".into()], ..base.clone() });
+	}
 	let n_random = if s.ctx.thorough { 300 } else { 25 };
 	for _ in 0..n_random {
 		let mut o = base.clone();
